@@ -353,7 +353,7 @@ def gen_cases(tier, rng):
     elif tier == "widen":
         n_real, n_scaled = 24, 600
     else:
-        n_real, n_scaled = 300, 3000
+        n_real, n_scaled = 300, 2000
     kinds = ["hs", "hs", "low", "full", "random", "hs"]
     for k in range(n_real):
         out.append({"consts": "real", "kind": kinds[k % len(kinds)], "budget": 130000 + rng.range(0, 200000),
